@@ -6,9 +6,12 @@ run bit-exactly at `Float` against the real classes by harness/calc.cc).
 Tables: `d.y i` = i-th stored value, `d.en i` = `exp(loge_grid[i])`, `d.knot i` = the unscaled
 tabulated value `XsCalculator::operator[](i)`; `d.WF` = what `XsGridData::operator bool`,
 `UniformGridData::from_bounds` and the collection builder guarantee (size ≥ 2, front < back,
-delta = (back − front)/(size − 1), the item range lies inside `reals`); any size.
+delta = (back − front)/(size − 1), the item range lies inside `reals`); `d.Pos` positive
+values; `d.Incr` strictly increasing values (range tables).  Every statement is for tables of
+ANY size.  Lookups return `Option` (`none` = a read outside the `reals` collection): every
+theorem also proves that the result is `some _`, i.e. no out-of-table read happens.
 -/
-import CelerVerif.Lemmas.CalcXsThm
+import CelerVerif.Lemmas.CalcExample
 
 namespace CelerVerif.Calc
 open CelerVerif
@@ -16,9 +19,7 @@ open CelerVerif
 /-! ## Uniform grid -/
 
 /-- ★ `UniformGrid::find` at ℝ: for `front ≤ v < back` the returned bin brackets `v` and
-    `bin + 1` is a grid point (the `CELER_ENSURE` of `find`).  In IEEE arithmetic the last
-    conjunct is FALSE a few ulp below `back` (DESIGN.md §8 d; reported by tools/checks/c14.py
-    under the key `uniformgrid-find-last-bin`). -/
+    `bin + 1` is a grid point (the `CELER_ENSURE` of `find`). -/
 theorem uniform_find_bracket (g : UGrid ℝ) (w : g.WF) (v : ℝ) (h1 : g.front ≤ v)
     (h2 : v < g.back) :
     g.at (g.find floorIdx v) ≤ v ∧ v < g.at (g.find floorIdx v + 1)
@@ -26,6 +27,18 @@ theorem uniform_find_bracket (g : UGrid ℝ) (w : g.WF) (v : ℝ) (h1 : g.front 
   w.find_bracket v h1 h2
 
 example : (UGrid.fromBounds (0 : ℝ) 3 4).WF := UGrid.fromBounds_WF 0 3 4 (by norm_num) (by norm_num)
+
+/-- exact statement for EVERY number type — in particular for the `Float` instance that is run
+    bit-for-bit against the C++ — and every input (in or out of range, NaN): with the clamp of
+    /repo commit f1d81dd the returned bin always has a right neighbour on the grid.  (Before
+    that commit this failed in IEEE arithmetic a few ulp below `back`: DESIGN.md §8 d; the
+    check still reports key `uniformgrid-find-last-bin` if the real `find` ever returns
+    `size − 1`.) -/
+theorem uniform_find_in_range {α : Type} [Num α] (toIdx : α → ℕ) (g : UGrid α) (v : α)
+    (h : 2 ≤ g.size) : g.find toIdx v + 1 < g.size :=
+  UGrid.find_lt toIdx g v h
+
+example : 2 ≤ (UGrid.fromBounds (0 : ℝ) 3 4).size := by simp [UGrid.fromBounds]
 
 /-- `from_bounds` puts the last grid point exactly on `back` (at ℝ) and the grid is increasing -/
 theorem uniform_grid_points (g : UGrid ℝ) (w : g.WF) :
@@ -56,6 +69,8 @@ theorem xs_at_knots (d : XsGrid ℝ) (w : d.WF) (i : ℕ) (hi : i < d.size) :
       XsGrid.WF.xsBin_real, lerp_left]
     rfl
 
+example (p : ℕ) : (exGrid p).WF ∧ 1 < (exGrid p).size := ⟨exGrid_WF p, by simp [exGrid]⟩
+
 /-- inside a bin the value lies between the two neighbouring (unscaled) knot values — also in
     the bins at and next to the prime index -/
 theorem xs_between_neighbours (d : XsGrid ℝ) (w : d.WF) (e : ℝ) (he : 0 < e)
@@ -64,10 +79,17 @@ theorem xs_between_neighbours (d : XsGrid ℝ) (w : d.WF) (e : ℝ) (he : 0 < e)
       min (d.knot k) (d.knot (k + 1)) ≤ v ∧ v ≤ max (d.knot k) (d.knot (k + 1)) :=
   calc_between d w e he h1 h2
 
+example : (exGrid 1).WF ∧ (0 : ℝ) < Real.exp 1 ∧ (exGrid 1).grid.front < Real.log (Real.exp 1)
+    ∧ Real.log (Real.exp 1) < (exGrid 1).grid.back := by
+  refine ⟨exGrid_WF 1, Real.exp_pos 1, ?_, ?_⟩ <;> rw [Real.log_exp] <;>
+    simp [exGrid, UGrid.fromBounds]
+
 /-- … in particular finite and positive for a positive table, at every energy -/
 theorem xs_pos (d : XsGrid ℝ) (w : d.WF) (hp : d.Pos) (e : ℝ) (he : 0 < e) :
     ∃ v, d.calc floorIdx e = some v ∧ 0 < v :=
   calc_pos d w hp e he
+
+example : (exGrid 1).WF ∧ (exGrid 1).Pos := ⟨exGrid_WF 1, exGrid_Pos 1⟩
 
 /-- documented extrapolation: below the grid the first value, above it the last value, each
     divided by E when its index is at or above the prime index -/
@@ -78,5 +100,202 @@ theorem xs_extrapolation (d : XsGrid ℝ) (w : d.WF) (e : ℝ) :
       d.calc floorIdx e
         = some (if d.size - 1 ≥ d.prime then d.y (d.size - 1) / e else d.y (d.size - 1))) :=
   ⟨w.calc_below, w.calc_above⟩
+
+/-! ## RangeCalculator / InverseRangeCalculator -/
+
+/-- the range is finite, and monotone in the energy (below, inside and above the grid) -/
+theorem range_monotone (d : XsGrid ℝ) (w : d.WF) (hp : d.Pos) (hi : d.Incr) (e1 e2 : ℝ)
+    (h1 : 0 < e1) (h12 : e1 ≤ e2) :
+    ∃ r1 r2, d.range floorIdx e1 = some r1 ∧ d.range floorIdx e2 = some r2 ∧ r1 ≤ r2 :=
+  w.range_mono hp hi h1 h12
+
+example : (exGrid noScaling).WF ∧ (exGrid noScaling).Pos ∧ (exGrid noScaling).Incr :=
+  ⟨exGrid_WF _, exGrid_Pos _, exGrid_Incr _⟩
+
+/-- the inverse range is finite, non-negative and monotone for `0 ≤ r` -/
+theorem invrange_monotone (d : XsGrid ℝ) (w : d.WF) (hp : d.Pos) (hi : d.Incr) (r1 r2 : ℝ)
+    (h1 : 0 ≤ r1) (h12 : r1 ≤ r2) :
+    ∃ e1 e2, d.invRange r1 = some e1 ∧ d.invRange r2 = some e2 ∧ 0 ≤ e1 ∧ e1 ≤ e2 := by
+  obtain ⟨e1, e2, a, b, c⟩ := w.invRange_mono hp hi h1 h12
+  obtain ⟨e, he, h0, _⟩ := w.invRange_bounds hp hi h1
+  rw [a] at he
+  cases he
+  exact ⟨e1, e2, a, b, h0, c⟩
+
+/-- ★ inverse-range ∘ range = id for every energy on the table and below it
+    (`log e ≤ back`, i.e. `e ≤ E_max`; above the table the range is clamped) -/
+theorem invrange_range (d : XsGrid ℝ) (w : d.WF) (hp : d.Pos) (hi : d.Incr) (e : ℝ) (he : 0 < e)
+    (hb : Real.log e ≤ d.grid.back) :
+    ∃ r, d.range floorIdx e = some r ∧ 0 < r ∧ d.invRange r = some e :=
+  w.invRange_range hp hi he hb
+
+example : (0 : ℝ) < 1 ∧ Real.log 1 ≤ (exGrid noScaling).grid.back := by
+  refine ⟨one_pos, ?_⟩; rw [Real.log_one]; simp [exGrid, UGrid.fromBounds]
+
+/-- ★ range ∘ inverse-range = id for every `0 < r ≤ r_max` -/
+theorem range_invrange (d : XsGrid ℝ) (w : d.WF) (hp : d.Pos) (hi : d.Incr) (r : ℝ) (hr : 0 < r)
+    (hmax : r ≤ d.y (d.size - 1)) :
+    ∃ e, d.invRange r = some e ∧ 0 < e ∧ d.range floorIdx e = some r :=
+  w.range_invRange hp hi hr hmax
+
+example : (0 : ℝ) < 3 ∧ (3 : ℝ) ≤ (exGrid noScaling).y ((exGrid noScaling).size - 1) := by
+  have := (exGrid_y noScaling).2.2
+  refine ⟨by norm_num, ?_⟩
+  show (3 : ℝ) ≤ (exGrid noScaling).y 2
+  rw [this]; norm_num
+
+/-! ## calc_mean_energy_loss
+
+`loss` = energy-loss table (any prime index), `rng` = range table, `lim` = `linear_loss_limit`,
+`range` = `physics.dedx_range()` which `calc_physics_step_limit` sets to the RangeCalculator
+value at the pre-step energy `E` (hypothesis `hrange`).  `0 < lim ≤ 1` is the validated option
+range (`PhysicsParams.cc`: `0 ≤ linear_loss_limit ≤ 1`; `PhysicsParamsScalars`: `> 0`). -/
+
+/-- ★ the mean loss is defined, non-negative and never exceeds the particle energy -/
+theorem meanLoss_bounds (loss rng : XsGrid ℝ) (wl : loss.WF) (hpl : loss.Pos) (wr : rng.WF)
+    (hpr : rng.Pos) (hir : rng.Incr) (lim E range step : ℝ) (hE : 0 < E) (_hlim0 : 0 < lim)
+    (hlim1 : lim ≤ 1) (hrange : rng.range floorIdx E = some range) (hs0 : 0 < step)
+    (hs1 : step ≤ range) :
+    ∃ L, meanEnergyLoss floorIdx loss rng lim E range step = some L ∧ 0 ≤ L ∧ L ≤ E := by
+  obtain ⟨rate, hc, hpos⟩ := calc_pos loss wl hpl E hE
+  by_cases hbr : E * lim ≤ step * rate
+  · by_cases heq : step = range
+    · exact ⟨E, meanLoss_full hc hbr heq, le_of_lt hE, le_refl _⟩
+    · obtain ⟨e1, e2, he1, _, _, _, hle⟩ :=
+        curve_energy wr hpr hir hE hrange (le_refl step) hs1
+      obtain ⟨e, he, h0, _⟩ := wr.invRange_bounds hpr hir (show 0 ≤ range - step by linarith)
+      rw [he1] at he
+      cases he
+      refine ⟨E - e1, ?_, by linarith [hle (le_of_lt hs0)], by linarith⟩
+      rw [meanLoss_curve hc hbr heq, he1]
+      rfl
+  · have hlin : step * rate < E * lim := not_le.mp hbr
+    refine ⟨step * rate, meanLoss_linear hc hlin, le_of_lt (mul_pos hs0 hpos), ?_⟩
+    have : E * lim ≤ E := by nlinarith
+    linarith
+
+example : (exGrid 1).WF ∧ (exGrid 1).Pos ∧ (exGrid noScaling).WF ∧ (exGrid noScaling).Incr
+    ∧ ∃ r, (exGrid noScaling).range floorIdx 1 = some r ∧ 0 < r := by
+  refine ⟨exGrid_WF _, exGrid_Pos _, exGrid_WF _, exGrid_Incr _, ?_⟩
+  obtain ⟨r, hr, hpos, _⟩ := (exGrid_WF noScaling).invRange_range (exGrid_Pos _) (exGrid_Incr _)
+    (e := 1) one_pos (by rw [Real.log_one]; simp [exGrid, UGrid.fromBounds])
+  exact ⟨r, hr, hpos⟩
+
+/-- a step equal to the range loses the full energy — PARTIAL: only when the range-curve branch
+    is taken (`hbr`: `range · dE/dx(E) ≥ lim · E`).  Full statement: `step = range → loss = E`.
+    The code does not enforce `hbr`; in the linear branch the real code returns
+    `range · dE/dx(E) < E` (excluded point replayed by tools/checks/c14.py, key
+    `meanloss-step-eq-range-linear-branch`). -/
+theorem meanLoss_full_at_range_partial (loss rng : XsGrid ℝ) (lim E range rate : ℝ)
+    (hc : loss.calc floorIdx E = some rate) (hbr : E * lim ≤ range * rate) :
+    meanEnergyLoss floorIdx loss rng lim E range range = some E :=
+  meanLoss_full hc hbr rfl
+
+example : ∃ rate, (exGrid 1).calc floorIdx 1 = some rate :=
+  let ⟨v, h, _⟩ := calc_pos (exGrid 1) (exGrid_WF 1) (exGrid_Pos 1) 1 one_pos
+  ⟨v, h⟩
+
+/-- the mean loss does not decrease with the step length as long as both steps use the same
+    formula (both linear or both on the range curve) -/
+theorem meanLoss_monotone_in_step (loss rng : XsGrid ℝ) (wr : rng.WF)
+    (hpr : rng.Pos) (hir : rng.Incr) (lim E range rate s1 s2 : ℝ) (hE : 0 < E)
+    (hc : loss.calc floorIdx E = some rate) (hrate : 0 < rate)
+    (hrange : rng.range floorIdx E = some range) (_h1 : 0 < s1) (h12 : s1 ≤ s2) (h2 : s2 ≤ range)
+    (hsame : s2 * rate < E * lim ∨ E * lim ≤ s1 * rate) :
+    ∃ L1 L2, meanEnergyLoss floorIdx loss rng lim E range s1 = some L1 ∧
+      meanEnergyLoss floorIdx loss rng lim E range s2 = some L2 ∧ L1 ≤ L2 := by
+  have hmul : s1 * rate ≤ s2 * rate := mul_le_mul_of_nonneg_right h12 (le_of_lt hrate)
+  rcases hsame with hlin | hcur
+  · exact ⟨_, _, meanLoss_linear hc (lt_of_le_of_lt hmul hlin), meanLoss_linear hc hlin, hmul⟩
+  · have hcur2 : E * lim ≤ s2 * rate := le_trans hcur hmul
+    obtain ⟨e1, e2, he1, he2, h0, hle, hE1⟩ := curve_energy wr hpr hir hE hrange h12 h2
+    by_cases heq2 : s2 = range
+    · by_cases heq1 : s1 = range
+      · exact ⟨E, E, meanLoss_full hc hcur heq1, meanLoss_full hc hcur2 heq2, le_refl _⟩
+      · refine ⟨E - e1, E, ?_, meanLoss_full hc hcur2 heq2, ?_⟩
+        · rw [meanLoss_curve hc hcur heq1, he1]; rfl
+        · obtain ⟨e, he, h0', _⟩ := wr.invRange_bounds hpr hir (show 0 ≤ range - s1 by linarith)
+          rw [he1] at he
+          cases he
+          linarith
+    · have heq1 : s1 ≠ range := by
+        intro h; apply heq2; linarith
+      refine ⟨E - e1, E - e2, ?_, ?_, by linarith⟩
+      · rw [meanLoss_curve hc hcur heq1, he1]; rfl
+      · rw [meanLoss_curve hc hcur2 heq2, he2]; rfl
+
+/-- across the switch from the linear formula (`s1`) to the range curve (`s2`) — PARTIAL.
+    Full statement: `s1 ≤ s2 → loss s1 ≤ loss s2`.  Needed in addition (`hsw`): along the range
+    curve the step `s2` loses at least the switch energy `lim · E`.  Nothing in the code
+    enforces this, and it fails even when the range table is the exact integral of 1/loss if
+    dE/dx decreases with energy (then curve loss over s < s · dE/dx(E)); excluded point replayed
+    by tools/checks/c14.py, key `meanloss-decreases-across-linear-switch`. -/
+theorem meanLoss_monotone_across_switch_partial (loss rng : XsGrid ℝ)
+    (lim E range rate s1 s2 L2 : ℝ)
+    (hc : loss.calc floorIdx E = some rate) (hlin : s1 * rate < E * lim)
+    (_h2 : meanEnergyLoss floorIdx loss rng lim E range s2 = some L2) (hsw : E * lim ≤ L2) :
+    ∃ L1, meanEnergyLoss floorIdx loss rng lim E range s1 = some L1 ∧ L1 ≤ L2 :=
+  ⟨_, meanLoss_linear hc hlin, by linarith⟩
+
+/-! ## range_to_step -/
+
+/-- `range_to_step`: a positive step that never exceeds the range (`CELER_ENSURE` of the code),
+    for `min_range > 0` and `0 < max_step_over_range ≤ 1` -/
+theorem rangeToStep_bounds (rho alpha range : ℝ) (hrho : 0 < rho) (ha0 : 0 < alpha)
+    (ha1 : alpha ≤ 1) (hr : 0 < range) :
+    0 < rangeToStep rho alpha range ∧ rangeToStep rho alpha range ≤ range := by
+  rw [rangeToStep_real]
+  split
+  · exact ⟨hr, le_refl _⟩
+  · rename_i hge
+    have hge' : rho * (1 + 1e-6) ≤ range := not_lt.mp hge
+    have hrr : rho < range := by
+      have : rho < rho * (1 + 1e-6) := by
+        have : (0 : ℝ) < 1e-6 := by norm_num
+        nlinarith
+      linarith
+    have hq : rho / range < 1 := by rw [div_lt_one hr]; exact hrr
+    have hq0 : 0 < rho / range := div_pos hrho hr
+    constructor
+    · have : 0 ≤ rho * (1 - alpha) * (2 - rho / range) :=
+        mul_nonneg (mul_nonneg (le_of_lt hrho) (by linarith)) (by linarith)
+      have := mul_pos ha0 hr
+      linarith
+    · have key : range - (alpha * range + rho * (1 - alpha) * (2 - rho / range))
+          = (1 - alpha) * ((range - rho) * (range - rho) / range) := by
+        field_simp; ring
+      have : 0 ≤ (1 - alpha) * ((range - rho) * (range - rho) / range) :=
+        mul_nonneg (by linarith) (div_nonneg (mul_self_nonneg _) (le_of_lt hr))
+      linarith
+
+/-! ## Urban MSC: true path ↔ geometrical path -/
+
+/-- ★ converting a true path to a geometrical path never lengthens it (every exit of
+    `MscStepToGeo::operator()`; any `expm1`, any tables) -/
+theorem geom_le_true (expm1 : ℝ → ℝ) (rng mxs : XsGrid ℝ) (emass E lam range t : ℝ)
+    (res : GeoResult ℝ)
+    (h : mscStepToGeo floorIdx expm1 rng mxs emass E lam range t = some res) : res.step ≤ t :=
+  mscStepToGeo_le expm1 rng mxs emass E lam range t res h
+
+/-- the small-step exits (`t < min_step` or `t < 0.05·range`) are defined, use
+    `alpha = small_step_alpha() = 0`, and give a non-negative geometrical path equal to `t`
+    resp. `λ(1 − exp(−t/λ))` (the final `min` is inert); `expm1 x = exp x − 1` is the contract
+    of the libm oracle input -/
+theorem geom_small_step (expm1 : ℝ → ℝ) (hex : ∀ x, expm1 x = Real.exp x - 1)
+    (rng mxs : XsGrid ℝ) (emass E lam range t : ℝ) (hlam : 0 < lam) (ht : 0 ≤ t)
+    (hsmall : t < range * mscDtrl) :
+    ∃ res, mscStepToGeo floorIdx expm1 rng mxs emass E lam range t = some res ∧
+      res.alpha = 0 ∧ 0 ≤ res.step ∧
+      (res.step = t ∨ res.step = lam * (1 - Real.exp (-t / lam))) :=
+  mscStepToGeo_small expm1 hex rng mxs emass E lam range t hlam ht hsmall
+
+example : ∃ expm1 : ℝ → ℝ, ∀ x, expm1 x = Real.exp x - 1 := ⟨fun x => Real.exp x - 1, fun _ => rfl⟩
+
+/-- ★ converting back returns a value between the geometrical and the original true path
+    (precondition of the code: `gstep ≤ true_step`) -/
+theorem fromGeo_between (log1p : ℝ → ℝ) (trueStep alpha range lam g : ℝ) (h : g ≤ trueStep) :
+    g ≤ mscStepFromGeo log1p trueStep alpha range lam g
+      ∧ mscStepFromGeo log1p trueStep alpha range lam g ≤ trueStep :=
+  mscStepFromGeo_between log1p trueStep alpha range lam g h
 
 end CelerVerif.Calc
